@@ -4,6 +4,8 @@ import (
 	"bytes"
 	"fmt"
 	"sort"
+	"strconv"
+	"strings"
 	"testing"
 )
 
@@ -252,7 +254,7 @@ func laneP_C15(t *testing.T, plan *Plan, w *World, sink *Sink) {
 		return
 	}
 	yes := "y\n"
-	res, err := runBinary(dir, flagArgs(rr.Op.Flags), &yes, "UTC")
+	res, err := runBinary(dir, Mix(plan.Seed, 80), flagArgs(rr.Op.Flags), &yes, "UTC")
 	if err != nil {
 		sink.res.Harness = append(sink.res.Harness, "lane P run: "+err.Error())
 		return
@@ -260,6 +262,135 @@ func laneP_C15(t *testing.T, plan *Plan, w *World, sink *Sink) {
 	sink.Cell("lane:P")
 	if res.Exit == 0 {
 		sink.LaneViolation(plan, "laneP:write-error-exit-0", "an artifact path is a directory, so its write fails, but the binary exited 0: "+res.Stdout)
+	}
+}
+
+// shadow: the model of w (entities, profiles, issuer relation) over another directory content, so
+// that the chain verifier can look at what the real binary left on a real disk.
+func (w *World) shadow(snap map[string]SnapEntry) *World {
+	fs := NewSimFS(1)
+	for p, e := range snap {
+		fs.PutAt(p, []byte(e.Data), e.Mtime)
+	}
+	return &World{T: w.T, Plan: w.Plan, FS: fs, Ents: w.Ents, Order: w.Order, Profs: w.Profs, Probe: map[string]int{}, State: map[string]any{}}
+}
+
+// Lane K: the faulted run, the recovery and the no-op of a scenario once more with the real binary
+// on a real directory, the fault being a real short write: the process runs under a file size limit
+// of N bytes (RLIMIT_FSIZE via prlimit), so the first artifact longer than N is cut at byte N by the
+// kernel and the write returns an error - whatever nativefs.WriteFile does around that write
+// (truncate first, write in place, temporary file) is real code here, not the simulated disk's model.
+func laneK_C15(r *Rng, base *Plan, dry *World, fr *RunResult, tier string, sink *Sink) {
+	if !laneKApplies(base, fr) {
+		return
+	}
+	n := 3
+	if tier == "thorough" {
+		n = 8
+	}
+	kr := NewRng(Mix(base.Seed, 9090))
+	for i := 0; i < n; i++ {
+		wr := Pick(kr, fr.Writes)
+		if len(wr.Content) < 3 {
+			continue
+		}
+		limit := int64(1 + kr.Intn(len(wr.Content)-1))
+		if i == 0 {
+			// inside the certificate block of the first write: the place where old and new content can
+			// be told apart least
+			if pf := splitPEM(fr.Writes[0].Content); len(pf.Blocks) > 0 && pf.Blocks[0].End-pf.Blocks[0].Start > 80 {
+				limit = int64(pf.Blocks[0].Start + 40 + kr.Intn(pf.Blocks[0].End-pf.Blocks[0].Start-80))
+			}
+		}
+		pl := base.Clone()
+		pl.Meta["lane"] = "K"
+		pl.Meta["fsize"] = fmt.Sprint(limit)
+		laneKOne(pl, dry, fr, limit, sink)
+	}
+}
+
+func laneKApplies(base *Plan, fr *RunResult) bool {
+	if gopkiBin() == "" || prlimitBin() == "" || fr == nil || fr.Op.Flags&FlagE != 0 || len(fr.Writes) == 0 {
+		return false
+	}
+	for _, op := range base.Ops {
+		if op.K == "clock" {
+			return false // the real binary reads the real clock
+		}
+	}
+	return true
+}
+
+// laneK_replay: a lane K plan from a replay file (w is its fault-free lane S execution).
+func laneK_replay(plan *Plan, w *World, sink *Sink) {
+	fr := runOf(w, "faulted")
+	limit, _ := strconv.ParseInt(plan.Meta["fsize"], 10, 64)
+	if !laneKApplies(plan, fr) || limit <= 0 {
+		return
+	}
+	laneKOne(plan, w, fr, limit, sink)
+}
+
+func laneKOne(pl *Plan, dry *World, fr *RunResult, limit int64, sink *Sink) {
+	fail := func(sig, f string, a ...any) { sink.LaneViolation(pl, sig, fmt.Sprintf(f, a...)) }
+	dir, err := scratchDir()
+	if err != nil {
+		sink.res.Harness = append(sink.res.Harness, err.Error())
+		return
+	}
+	defer removeAll(dir)
+	if err := materialize(dir, fr.Before, dry.FS.dirs); err != nil {
+		sink.res.Harness = append(sink.res.Harness, "lane K materialize: "+err.Error())
+		return
+	}
+	yes := "y\n"
+	v := Mix(pl.Seed, uint64(limit))
+	v -= v % 5 // plain directory argument: the lane is about the write, not the path
+	res, err := runBinaryLimited(dir, v, flagArgs(fr.Op.Flags), &yes, "UTC", limit)
+	if err != nil {
+		sink.res.Harness = append(sink.res.Harness, "lane K run: "+err.Error())
+		return
+	}
+	sink.Cell("lane:K")
+	mid, _ := readDirSnap(dir)
+	cut := ""
+	for _, w := range fr.Writes {
+		if e, ok := mid[w.Path]; ok && int64(len(e.Data)) == limit && int64(len(w.Content)) > limit+16 {
+			cut = w.Path
+		}
+	}
+	if cut != "" {
+		sink.res.Faults["K-short-write"]++
+		sink.Cell("laneK:short-write")
+		if res.Exit == 0 {
+			fail("laneK:write-error-exit-0", "file size limit %d cut %s short, yet the binary exited 0: %s", limit, cut, res.Stdout)
+			return
+		}
+	} else {
+		sink.Cell("laneK:limit-not-reached")
+	}
+	res2, err := runBinary(dir, v, flagArgs(DefaultFlags), &yes, "UTC")
+	if err != nil {
+		sink.res.Harness = append(sink.res.Harness, "lane K recovery: "+err.Error())
+		return
+	}
+	if res2.Exit != 0 {
+		fail("laneK:recovery-run-failed", "after a short write at byte %d of %q the next default run exited %d: %s", limit, cut, res2.Exit, res2.Stdout)
+		return
+	}
+	after, _ := readDirSnap(dir)
+	for _, c := range dry.shadow(after).CheckChains(ChainOpts{RequireAll: true, CheckKeyIDs: true}) {
+		fail("laneK:after-recovery:"+c.Sig, "short write at byte %d of %q, then a default run: %s", limit, cut, c.Detail)
+		return
+	}
+	res3, err := runBinary(dir, v, flagArgs(DefaultFlags), nil, "UTC")
+	if err != nil {
+		sink.res.Harness = append(sink.res.Harness, "lane K third run: "+err.Error())
+		return
+	}
+	end, _ := readDirSnap(dir)
+	if d := DiffSnap(after, end); len(d) > 0 || res3.Exit != 0 || strings.Contains(res3.Stdout, "Proceed") {
+		fail("laneK:third-run-not-noop", "run after recovery changed %v, exit %d, stdout %q", d, res3.Exit, res3.Stdout)
 	}
 }
 
@@ -294,6 +425,7 @@ func exploreC15(t *testing.T, seed uint64, idx int, tier string, sink *Sink) {
 		return
 	}
 	sink.Cell(fmt.Sprintf("writes:%d", len(fr.Writes)))
+	laneK_C15(r, base, dry, fr, tier, sink)
 	run := func(fs []FaultSpec, depth2 *FaultSpec) {
 		pl := base.Clone()
 		pl.Ops[fi].Faults = fs
